@@ -135,6 +135,20 @@ def loaders_agree(data, want_snap, snap_fn, prop, suffix):
             same(read_sunvox_file(arg), "a " + how)
         with open(name, "rb", buffering=0) as f:
             same(read_sunvox_file(f), "an unbuffered file object")
+        # streams whose file descriptor belongs to other bytes than the ones they deliver: files compressed on disk
+        # (only for files that are not large: seeking backwards in such a stream re-reads it from the start)
+        if len(data) <= 200000:
+            import bz2
+            import gzip
+            import lzma
+
+            for how, opener in (("gzip.open", gzip.open), ("bz2.open", bz2.open), ("lzma.open", lzma.open)):
+                with opener(name, "wb") as f:
+                    f.write(data)
+                with opener(name, "rb") as f:
+                    same(read_sunvox_file(f), "a file object from %s()" % how)
+            with open(name, "wb") as f:
+                f.write(data)
         if data:
             with open(name, "rb") as f:
                 mm = mmap.mmap(f.fileno(), 0, access=mmap.ACCESS_READ)
